@@ -359,7 +359,7 @@ Section Oracle.
                          end) t.
 
   Definition spec_C05_call (t : list event) (r : pv + exn) : bool :=
-    match r with inr (XLib "TypeError" _) => legit_type_error t | _ => true end &&
+    match r with inr (XLib cls _) => implb (String.eqb cls "TypeError") (legit_type_error t) | _ => true end &&
     forallb (fun e =>
                match e with
                | EvCond RPre _ kw _ | EvCapture _ kw _ => kw_of_call resolved kw
